@@ -1,7 +1,11 @@
-"""Run checks against seeded changes: apply each /verif/seeded/<name>/patch.diff to /repo,
-run the property's quick check (and optionally others), undo.  Records detection in meta.json.
+"""Run checks against seeded changes.  For each /verif/seeded/<name>/patch.diff: apply it in a scratch git worktree of /repo
+(created under /tmp, never in /repo's own working tree), run the property's quick check with SA_REPO pointing at the
+worktree and SA_OUT pointing away from /verif/evidence, undo.  Records the outcome as "detection" in meta.json
+("detection_first", where present, is what the checks said when the change was first seen and is left alone).
 usage: seed_detect.py [name ...]   (default: all)"""
 import json, os, subprocess, sys, glob
+
+WT = "/tmp/wt_detect"
 
 def sh(cmd, cwd="/verif"):
     p = subprocess.run(cmd, cwd=cwd, shell=True, capture_output=True, text=True)
@@ -9,26 +13,31 @@ def sh(cmd, cwd="/verif"):
 
 def main():
     names = sys.argv[1:] or sorted(os.path.basename(p) for p in glob.glob("/verif/seeded/*") if os.path.isdir(p))
-    rc, o = sh("git status --short | grep -v '^??' | wc -l", "/repo")
-    assert o.strip() == "0", "/repo has uncommitted changes"
+    sh("git -C /repo worktree remove --force %s" % WT)
+    rc, o = sh("git -C /repo worktree add --detach %s HEAD" % WT)
+    assert rc == 0, o
     res = {}
-    for n in names:
-        d = "/verif/seeded/" + n
-        meta = json.load(open(d + "/meta.json"))
-        pid = meta["breaks_property"]
-        rc, o = sh("git apply %s/patch.diff" % d, "/repo")
-        if rc != 0:
-            print(n, "patch does not apply:", o[-200:]); continue
-        try:
-            env = "SA_OUT=/tmp/sa_seed_out "
-            rc, o = sh(env + "/venv/bin/python -m sa.check %s" % pid)
-            lines = [l for l in o.splitlines() if l.startswith(("FINDING", "ANALYSIS-ERROR"))]
-            meta["detection"] = {"check": "sa.check %s (quick) on /repo with the patch applied" % pid, "exit": rc,
-                                 "reports": [l[:300] for l in lines[:6]]}
-            res[n] = (rc, lines[:2])
-        finally:
-            sh("git checkout -- .", "/repo")
-        json.dump(meta, open(d + "/meta.json", "w"), indent=1)
+    try:
+        for n in names:
+            d = "/verif/seeded/" + n
+            meta = json.load(open(d + "/meta.json"))
+            pid = meta["breaks_property"]
+            rc, o = sh("git apply %s/patch.diff" % d, WT)
+            if rc != 0:
+                print(n, "patch does not apply:", o[-200:]); continue
+            try:
+                env = "SA_REPO=%s SA_OUT=/tmp/sa_seed_out " % WT
+                rc, o = sh(env + "/venv/bin/python -m sa.check %s" % pid)
+                lines = [l for l in o.splitlines() if l.startswith(("FINDING", "ANALYSIS-ERROR"))]
+                meta["detection"] = {"check": "sa.check %s (quick) on a scratch worktree of /repo with the patch applied (SA_REPO)" % pid, "exit": rc,
+                                     "reports": [l[:300] for l in lines[:6]]}
+                res[n] = (rc, lines[:2])
+            finally:
+                sh("git checkout -- .", WT)
+            json.dump(meta, open(d + "/meta.json", "w"), indent=1)
+    finally:
+        sh("git -C /repo worktree remove --force %s" % WT)
+        sh("rm -rf /tmp/sa_seed_out")
     for n, (rc, lines) in res.items():
         print("%-10s exit=%d %s" % (n, rc, (lines[0][:200] if lines else "-- NOT DETECTED --")))
 
